@@ -318,33 +318,67 @@ def make_fn(fid, log):
     name, arity = FN_SPECS[fid]
     params = ", ".join(f"a{i}" for i in range(arity))
     ns = {"log": log, "fid": fid}
-    exec(f"def {name}({params}):\n    log.append(('call', fid))\n    return a1\n", ns)
+    ns["ran"] = RAN
+    exec(f"def {name}({params}):\n    ran.append(fid)\n    log.append(('call', fid))\n    return a1\n", ns)
     fn = ns[name]
     fn.fid = fid
     return fn
 
 
+RAN = []  # every instrumented hook function of the harness notes its id here whenever its body runs
+PROBE = object()  # the value handed to a recorded callback when it is called
+
+
+class _Pending:
+    """A callback handed to .filter / .map / .flatmap, not called yet."""
+
+    def __init__(self, kind, callback):
+        self.kind, self.callback = kind, callback
+
+
 class FakeStrategy:
-    """Records which strategy transformation is applied with which hook (apply_to_container never draws)."""
+    """Stands in for a Hypothesis strategy (apply_to_container / _apply_hooks never draw).  Like Hypothesis it only KEEPS the
+    callbacks it is given; `resolve_log` calls them afterwards - when the loops that built them are over - and reports which
+    instrumented hook function actually ran.  Nothing about the representation of a callback (functools.partial, lambda,
+    closure, bound method) is looked at."""
 
     def __init__(self, log):
         self.log = log
 
     def filter(self, f):
-        self.log.append(("filter", f.func.fid))
+        self.log.append(_Pending("filter", f))
         return self
 
     def map(self, f):
-        self.log.append(("map", f.func.fid))
+        self.log.append(_Pending("map", f))
         return self
 
     def flatmap(self, f):
-        self.log.append(("flatmap", f.func.fid))
+        self.log.append(_Pending("flatmap", f))
         return self
 
 
+def resolve_log(log):
+    """-> [(kind, function id)]: eager calls (before_generate hooks note ("call", id) themselves) stay where they are; every kept
+    callback is called once with PROBE, each hook function that runs gives one entry (none: (kind, None))."""
+    out = []
+    for entry in list(log):
+        if not isinstance(entry, _Pending):
+            out.append(tuple(entry))
+            continue
+        del RAN[:]
+        try:
+            entry.callback(PROBE)
+            ran = list(RAN)
+        except Exception as exc:  # noqa: BLE001
+            ran = [f"raises:{type(exc).__name__}"]
+        out += [(entry.kind, fid) for fid in ran] or [(entry.kind, None)]
+    del RAN[:]
+    return out
+
+
 def canon_log(log):
-    return [["before_generate" if k == "call" else k, fid] for k, fid in log]
+    return [["before_generate" if k == "call" else k, fid] for k, fid in resolve_log(log)]
 
 
 def canon_model_applied(v):
@@ -1105,7 +1139,8 @@ def crit_call(c):
     return {"func": None, "crit": {a: [v, None] for a, v in c.items()}}
 
 
-def c_events(events):
+def c_event_list(events):
+    """the events as a Coq `list event` (h_id = registration id: one function object per registration)"""
     out, n_dec = [], 0
     for ev in events:
         if ev[0] == "generate":
@@ -1138,7 +1173,11 @@ def c_events(events):
                 out += [f"(EOp (ODecFilter {cnat(n_dec)} {i} {call}))" for i, call in inner]
                 out.append(f"(EOp (ODecApply {cnat(n_dec)} {fn}))")
                 n_dec += 1
-    return "(gen_trace (init [Global; Schema; Test] %s) 0 1 (Some 2%%nat) %s)" % (clist([cnat(c) for c in CLOSURES], "nat"), clist(out, "event"))
+    return clist(out, "event")
+
+
+def c_events(events):
+    return "(gen_trace (init [Global; Schema; Test] %s) 0 1 (Some 2%%nat) %s)" % (clist([cnat(c) for c in CLOSURES], "nat"), c_event_list(events))
 
 
 def model_interleaved(events, trace):
@@ -1366,6 +1405,7 @@ def make_reuse_fn(kind, slot, name, fired):
     from hypothesis import strategies as st
 
     def record(ctx):
+        RAN.append(slot)
         fired.add(ctx.operation.label)
 
     if kind == "map":
@@ -1455,7 +1495,7 @@ def reuse_run(hist, seed=0, examples=2):
                     for tg in ORACLE_TARGETS_COQ:
                         log = []
                         d.apply_to_container(FakeStrategy(log), tg, ctx)
-                        per_target.append([[FAKE_KIND[k], fid] for k, fid in log])
+                        per_target.append([[FAKE_KIND[k], fid] for k, fid in resolve_log(log)])
                     row.append(per_target)
                 cells.append(row)
             steps.append(cells)
@@ -1608,7 +1648,8 @@ def run(chk: core.Check):
         "(to_filterable_hook closures over a heap of FilterSet objects, dispatcher, _should_skip_hook, scope order) and auths.py "
         "(AuthStorage.register/apply/set_from_requests/set, set_on_case)",
         "correspondence harness harness/props/c19.py (encoders, Coq output parser, canonicalisers, generators, the recording "
-        "FakeStrategy that stands in for a Hypothesis strategy in apply_to_container)",
+        "FakeStrategy that stands in for a Hypothesis strategy in apply_to_container: it keeps the callbacks and calls them after "
+        "construction, the instrumented hook functions report which of them ran)",
         "user predicates and compiled regexes are opaque matchers given by their truth table over the 6 operations of the harness "
         "schema, in the several-schemas stage over the 15 operations of its three documents (table computed by the harness with re.search / "
         "a reading of the raw document)",
@@ -1638,7 +1679,10 @@ def run(chk: core.Check):
         "hook name or another name of its kind, 45% without filters), unregister / unregister_all in between; after EVERY event every dispatcher is "
         "asked (apply_to_container with a recording strategy) for all 6 operations x 6 targets, real data generation at the end; expected = each "
         "registration fires where the filters written in its own expression say (mismatches where the function object was given another chain by a "
-        "later expression = region function_registered_twice, finding C19-F5).  Several-schemas stage: 4 fixed + generated histories on 2-3 REAL schema "
+        "later expression = region function_registered_twice, finding C19-F5).  Same-name stage: 4 fixed + generated event lists with 1-2 groups of 2-4 registrations "
+        "under ONE hook name (mostly filter_case / map_case / flatmap_case / before_generate_case) on ONE dispatcher with pairwise different filter chains, all "
+        "forms and scopes, unregistrations and generations in between; per generated case (as_strategy built once, 3 draws) the hook functions that ran, "
+        "in order and with multiplicity, vs the property read directly, Model_C19.gen_trace and the sentinel gen_trace_late.  Several-schemas stage: 4 fixed + generated histories on 2-3 REAL schema "
         "objects whose documents share labels (GET /users, POST /users, ...) but differ in tags / operationId / deprecated / requestBody: 1-4 hook "
         "registrations (global 45%, test, schema.hooks, schema.hook; all forms) and 0-3 auth providers (global / schema / test storage, register / "
         "set_from_requests) with 0-3 apply_to / skip_for calls by name, method, path, tag, operation_id, *_regex and matcher functions (deprecated, "
@@ -1812,6 +1856,12 @@ def run(chk: core.Check):
         "histories": len(ru_runs), "fixed": len(REUSE_FIXED), "observed_states": ru_steps, "oracle_wrong_histories": ru_wrong,
         "mismatches_inside_listed_regions": ru_inside, "cells_compared_with_per_registration_spec": ru_spec_cells, "model_disagrees": ru_disagree,
     }
+    # ---- SEVERAL hooks under ONE name on one dispatcher (harness/props/c19_same.py): real data generation, per generated case which
+    #      hook functions ran, in which order, how often vs the property read directly (oracle), Model_C19.gen_trace
+    #      (C19_same_name_hooks_in_order / _each_once / _all_scopes) and the sentinel gen_trace_late (C19_late_binding_refuted)
+    from harness.props import c19_same
+
+    c19_same.stage(chk, boost=10 if chk.broken and not chk.failures else 1)
     # ---- evaluation sequences over the operations of 2-3 real schema objects that SHARE labels (harness/props/c19_multi.py): real
     #      dispatch, real data generation and auth application vs the property read directly (oracle), Model_C19.eval_trace /
     #      auth_trace with match_plain (C19_filter_evaluation_pure, C19_auth_evaluation_pure) and the sentinel match_cached
@@ -1969,6 +2019,10 @@ def replay(payload) -> int:
             for m, region in bad:
                 print(f"  [{region or 'VIOLATION'}] {m}")
             print("->", "FAILS" if any(region is None for _, region in bad) else "passes (outside the listed regions)")
+        if isinstance(inp, dict) and "same_name_events" in inp:
+            from harness.props import c19_same
+
+            c19_same.replay_one(inp["same_name_events"])
         if isinstance(inp, dict) and "multi_schema_history" in inp:
             from harness.props import c19_multi
 
